@@ -115,6 +115,24 @@ Theorem C11_subdiv_range : forall bbox tol tol_deC bez1 bez2 maxits res,
     exists k, dyadic_odd t1 k /\ dyadic_odd t2 k /\ (0 < t1 < 1)%R /\ (0 < t2 < 1)%R.
 Proof. exact subdiv_range. Qed.
 
+(* the distance the subdivision does guarantee (given that bezier_bounding_box
+   contains the curve, C08): per coordinate, at most the sum of the EXTENTS of the
+   two boxes — while the stopping rule only bounds their AREAS (< tol_deC); so
+   |B1(t1) - B2(t2)| <= 1e-5 x size is not a consequence (and fails on the code
+   for small curves: key subdivision-residual-small-scale in tools/harness/c11.py) *)
+Theorem C11_subdiv_distance_partial : forall bbox tol tol_deC bez1 bez2 maxits res,
+    deg23 bez1 -> deg23 bez2 ->
+    (forall b s, deg23 b -> (0 <= s <= 1)%R -> inbox (bbox b) (bezier_point NumR b s)) ->
+    bezier_intersections NumR bbox tol tol_deC bez1 maxits bez2 = IOk res ->
+    forall t1 t2, In (t1, t2) res ->
+    exists b1 b2,
+      let '(x1, X1, y1, Y1) := bbox b1 in
+      let '(x2, X2, y2, Y2) := bbox b2 in
+      (Rabs (re (bezier_point NumR bez1 t1) - re (bezier_point NumR bez2 t2)) <= (X1 - x1) + (X2 - x2)
+       /\ Rabs (im (bezier_point NumR bez1 t1) - im (bezier_point NumR bez2 t2)) <= (Y1 - y1) + (Y2 - y2)
+       /\ (X1 - x1) * (Y1 - y1) < tol_deC /\ (X2 - x2) * (Y2 - y2) < tol_deC)%R.
+Proof. exact subdiv_distance_partial. Qed.
+
 (* ---------------- witnesses computed in exact rationals ---------------- *)
 Definition q (n : Z) (d : positive) : Qc := qc n d.
 Definition zc (a b : Z) : Cplx Qc := (q a 1, q b 1).
@@ -175,4 +193,5 @@ Print Assumptions C11_line_line_sound_R.
 Print Assumptions C11_line_line_swap.
 Print Assumptions C11_bezier_line_residual_partial.
 Print Assumptions C11_subdiv_range.
+Print Assumptions C11_subdiv_distance_partial.
 Print Assumptions C11_path_index_duplicate_refuted.
